@@ -21,6 +21,10 @@ conditions that live in the shape of the repository's own code:
     constructors keep the signature;
 (5) ``from_expression`` of Scalar/Vector/Tensor fields: signature ``grid.axes`` <-> coordinate
     arrays in axis order, components written in the order they are read;
+(7) symbolic rewriting between the parsed text and the printed code is domain-safe: no sympy
+    rewriting entry point is called with an option that drops domain checks (``inverse=True``,
+    ``force=True``), no ``posify`` / ``nsimplify`` / ``refine``, and variables are created without
+    assumptions (the compiled function is called with arbitrary numbers);
 (6) ``_check_signature`` / alias tables: the first item of an alias list is the canonical
     name, aliases are renamed *to* it, alias tables map every alias to an axis of the class.
 
@@ -1728,6 +1732,101 @@ NOT_DECIDED = (
 )
 
 
+# ============================================================================
+# Part G -- symbolic rewriting between the parsed text and the printed code is domain-safe
+# ============================================================================
+# sympy rewriting entry points and the options that make them valid only on a sub-domain of the
+# arguments (documented by sympy: "without checking whether x belongs to the set where this
+# relation is true" / "force=True ... assumptions about variables will be ignored")
+REWRITE_UNSAFE_FLAGS = {
+    "simplify": {"inverse"},
+    "expand": {"force"},
+    "expand_log": {"force"},
+    "expand_power_base": {"force"},
+    "expand_power_exp": {"force"},
+    "logcombine": {"force"},
+    "powsimp": {"force"},
+    "powdenest": {"force"},
+    "trigsimp": set(),
+    "factor": set(),
+    "cancel": set(),
+    "together": set(),
+    "collect": set(),
+    "radsimp": set(),
+    "ratsimp": set(),
+}
+# entry points that change values whatever their options
+REWRITE_UNSAFE_CALLS = {
+    "posify": "replaces symbols by positive ones: the result holds for positive arguments only",
+    "nsimplify": "replaces floating-point numbers by nearby 'simple' exact numbers",
+    "refine": "rewrites under assumptions that the arguments of the compiled function need not meet",
+}
+SYMBOL_MAKERS = {"Symbol", "symbols", "Dummy", "Wild", "IndexedBase"}
+ASSUMPTIONS = {"positive", "negative", "nonnegative", "nonpositive", "nonzero", "integer", "even", "odd", "real", "imaginary", "rational", "finite", "zero", "prime", "commutative", "extended_real", "extended_positive", "extended_nonnegative"}
+
+
+def _truthy_const(e: ast.AST):
+    """True/False for a literal option value, None when it is not a literal"""
+    if isinstance(e, ast.Constant):
+        return bool(e.value)
+    return None
+
+
+def check_rewriting(rep: Report, ix) -> None:
+    funcs = list(ix.module(EXPR).functions.values())
+    for key, (rel, cls) in BACKENDS.items():
+        funcs.append(ix.func(rel, f"{cls}.{MEF}"))
+    n_rw = n_sym = 0
+    seen_fn = set()
+    for fi in funcs:
+        if fi.ref in seen_fn:
+            continue
+        seen_fn.add(fi.ref)
+        own = {id(x) for x in ast.walk(fi.node)} - {id(y) for d in ast.walk(fi.node) if d is not fi.node and isinstance(d, (ast.FunctionDef, ast.AsyncFunctionDef)) for y in ast.walk(d)}
+        k_rw = k_sym = 0
+        for c in ast.walk(fi.node):
+            if not isinstance(c, ast.Call) or id(c) not in own:
+                continue
+            leaf = _leaf(c.func)
+            kws = {k.arg: k.value for k in c.keywords if k.arg}
+            star = any(k.arg is None for k in c.keywords)
+            if leaf in REWRITE_UNSAFE_FLAGS:
+                # function form sympy.simplify(e, ...) or method form e.simplify(...)
+                recv = dotted(c.func) or ""
+                if not (recv.startswith("sympy.") or isinstance(c.func, ast.Attribute)):
+                    continue
+                n_rw += 1
+                role = f"{leaf}#{k_rw}"
+                k_rw += 1
+                rep.saw("call sites", f"{fi.ref}::{role}")
+                if star:
+                    raise _grammar(fi, c, f"`{ast.unparse(c)[:60]}` takes its options from a ** dictionary")
+                for flag in sorted(REWRITE_UNSAFE_FLAGS[leaf] & set(kws)):
+                    v = _truthy_const(kws[flag])
+                    if v is None:
+                        raise _grammar(fi, c, f"option `{flag}={ast.unparse(kws[flag])}` of {leaf} is not a literal")
+                    _ob(rep, "rewriting-domain-safe", fi.ref, f"{role}::{flag}", not v, f"`{ast.unparse(c)[:70]}`: with `{flag}=True` sympy rewrites without checking the domain (e.g. acos(cos(x)) -> x, log(exp(z)) -> z, sqrt(x**2) -> x): the compiled function differs from the written formula outside the principal branch", line=c.lineno)
+                if not (REWRITE_UNSAFE_FLAGS[leaf] & set(kws)):
+                    rep.oblige(f"rewriting-domain-safe:{fi.ref}::{role}", True)
+            elif leaf in REWRITE_UNSAFE_CALLS and ((dotted(c.func) or "").startswith("sympy.") or isinstance(c.func, ast.Name)):
+                n_rw += 1
+                role = f"{leaf}#{k_rw}"
+                k_rw += 1
+                _ob(rep, "rewriting-domain-safe", fi.ref, role, False, f"`{ast.unparse(c)[:70]}`: {REWRITE_UNSAFE_CALLS[leaf]}", line=c.lineno)
+            elif leaf in SYMBOL_MAKERS and ((dotted(c.func) or "").startswith("sympy.") or isinstance(c.func, ast.Name)):
+                n_sym += 1
+                role = f"{leaf}#{k_sym}"
+                k_sym += 1
+                rep.saw("call sites", f"{fi.ref}::{role}")
+                bad = sorted(a for a in kws if a in ASSUMPTIONS and _truthy_const(kws[a]) is not False) if leaf != "IndexedBase" else sorted(a for a in kws if a in ASSUMPTIONS)
+                if star:
+                    raise _grammar(fi, c, f"`{ast.unparse(c)[:60]}` takes assumptions from a ** dictionary")
+                _ob(rep, "rewriting-domain-safe", fi.ref, f"{role}::assumptions", not bad, f"`{ast.unparse(c)[:70]}` creates the variable with the assumption(s) {bad}: simplification then uses identities that hold only for such arguments (sqrt(x**2) -> x), but the compiled function is called with arbitrary numbers", line=c.lineno)
+    # the sympy_cls handed to fill_locals must be the plain constructors
+    rep.floor("sympy rewriting calls (simplify in __init__ and derivatives)", n_rw, 3)
+    rep.floor("sympy symbol constructions", n_sym, 3)
+
+
 def check(tier: str) -> Report:
     rep = Report("C11", tier, "other", "sibling tables from an abstract interpretation of make_expression_function + def-use rules (narrow structural clauses)")
     rep.explanation = (
@@ -1763,6 +1862,7 @@ def check(tier: str) -> Report:
     check_from_expression(rep, ix)
     check_signature_aliases(rep, ix)
     check_passthrough(rep, ix)
+    check_rewriting(rep, ix)
     rep.floor("obligations", len(rep.obligations), 200)
     rep.note(NOT_DECIDED)
     return rep
